@@ -51,7 +51,14 @@ claim("C15", "model_checking",
       "Annotation map state machine in TLA+ (Update/Parse with run-length strings for lengths around 63); TLC explores all single and double updates over 14 plugins x 13 ids x 8 device lists x 5 initial maps and random triples; the real helpers must leave the map untouched on failure, add exactly one legal key whose value parses back, never overwrite, and Parse must return per-key devices in order or an error with empty results.",
       STR_NOTE, "TLA+ state machine (Annotations) explored by TLC, behaviours replayed into cdi.UpdateAnnotations/ParseAnnotations/AnnotationKey/AnnotationValue", "5 C15", "strings")
 
+claim("C10", "model_checking",
+      "The write protocol is a TLA+ state machine (one action per system call, crash at every step, failing create/write-at-every-chunk/rename, a scanner with separate open and read, several writers); TLC checks NoPartialVisible, ImmutableVisible, ScannerSeesWhole exhaustively. The code is bound three ways: the directory is inspected byte-for-byte and scanned by a real cache at every write.* hook point, after SIGKILL at every point and after a write failing at every offset (RLIMIT_FSIZE); and strace traces of the real writer are validated by TLC against a protocol-agnostic file-system trace specification with the invariants evaluated in every state.",
+      "Trusted: strace decoding + tools/strace2ndjson.py, the hook placement, TLC. Crash = process death (not power loss). EFBIG stands in for ENOSPC.",
+      "TLA+ protocol model (SpecWrite) checked by TLC + trace validation of strace traces against FSTrace + hook-driven crash/fault injection", "5 C10, 4.5", "specwrite")
+
 ENGINES = [
+ {"name": "specwrite", "path": "spec/SpecWrite.tla spec/FSTrace.tla harness/writer.go tools/strace2ndjson.py", "serves_properties": ["C10"],
+  "kind_free_text": "protocol model + generic FS trace spec; real writer observed through hooks, kill -9, RLIMIT_FSIZE and strace"},
  {"name": "specdoc", "path": "spec/SpecDoc.tla spec/SpecDocGen.tla spec/MCSpecDoc.tla harness/specdoc.go", "serves_properties": ["C05", "C06"],
   "kind_free_text": "token model of the Spec document with admission and required-version rules; TLC enumerates documents, harness renders JSON/YAML and runs every entry point"},
  {"name": "strings", "path": "spec/QName.tla spec/QNameStrings.tla spec/QNameParts.tla spec/Annotations.tla harness/qname.go harness/annot.go", "serves_properties": ["C07", "C15"],
